@@ -68,14 +68,16 @@ class Sandbox:
         open(os.path.join(self.dir, "__init__.py"), "w").close()
         self.root = os.path.join(self.dir, "root")
         os.makedirs(self.root)
-        for rel, data in ROOT_TREE.items():
-            p = os.path.join(self.root, rel)
-            if data is None:
-                os.makedirs(p, exist_ok=True)
-            else:
-                os.makedirs(os.path.dirname(p), exist_ok=True)
-                with open(p, "wb") as f:
-                    f.write(data)
+        self.uroot = os.path.join(self.dir, "raíz文")  # same tree below a directory whose own name is not ASCII
+        for base in (self.root, self.uroot):
+            for rel, data in ROOT_TREE.items():
+                p = os.path.join(base, rel)
+                if data is None:
+                    os.makedirs(p, exist_ok=True)
+                else:
+                    os.makedirs(os.path.dirname(p), exist_ok=True)
+                    with open(p, "wb") as f:
+                        f.write(data)
         for rel, data in OUTSIDE.items():
             p = os.path.join(self.dir, rel)
             os.makedirs(os.path.dirname(p), exist_ok=True)
@@ -94,6 +96,9 @@ class Sandbox:
 
         if spelling == "absolute":
             args, kw = (self.root,), {}
+        elif spelling == "unicode":
+            args, kw = (self.uroot,), {}
+            _AUDIT["root"] = os.path.realpath(self.uroot)
         elif spelling == "relative":
             os.chdir(self.dir)
             args, kw = ("root",), {}
@@ -118,6 +123,9 @@ class Sandbox:
         shutil.rmtree(self.parent, ignore_errors=True)
 
 
+ROOTNAME = ["root"]
+
+
 def resolve(path):
     """Lexical resolution below the served directory. Returns (rel components or None if outside, ends_with_slash)."""
     depth_out = 0
@@ -133,7 +141,7 @@ def resolve(path):
             continue
         if depth_out:
             # we are above the served directory; only the literal name 'root' of the served directory leads back in
-            if depth_out == 1 and seg == "root":
+            if depth_out == 1 and seg == ROOTNAME[0]:
                 depth_out = 0
                 continue
             return None
@@ -261,13 +269,14 @@ def all_paths(depth):
 
 def shards(tier, seed):
     n = 8 if tier == "quick" else 32
-    return [("paths", spelling, k, n) for spelling in ("absolute", "relative", "package") for k in range(n)]
+    return [("paths", spelling, k, n) for spelling in ("absolute", "relative", "package", "unicode") for k in range(n)]
 
 
 def run_shard(desc, tier):
     r = R()
     _, spelling, k, n = desc
     sb = Sandbox()
+    ROOTNAME[0] = "raíz文" if spelling == "unicode" else "root"
     try:
         apps = sb.apps(spelling)
         paths = list(all_paths(DEPTH[tier]))[k::n]
@@ -289,6 +298,7 @@ def finish(merged, tier):
 def replay(w):
     r = R()
     sb = Sandbox()
+    ROOTNAME[0] = "raíz文" if w["spelling"] == "unicode" else "root"
     try:
         apps = sb.apps(w["spelling"])
         judge(r, apps, w["spelling"], w["iface"], w["kind"], w["path"])
